@@ -1,6 +1,6 @@
 CONSTANTS
   KDoms <- KDomsTriples
-  KMax = 2
+  KMax = 1
   MaxSteps = 3
   WithObs = FALSE
   PurgeLast = FALSE
